@@ -78,6 +78,16 @@ func (t Tree) write() {
 	}
 }
 
+// rewriteFile replaces (or, with remove, deletes) one file of an already written tree.
+func (t Tree) rewriteFile(rel string, content string, remove bool) {
+	p := t.abs(rel)
+	os.RemoveAll(p)
+	if !remove {
+		must(os.MkdirAll(filepath.Dir(p), 0o755))
+		must(os.WriteFile(p, []byte(content), 0o644))
+	}
+}
+
 func (t Tree) abs(rel string) string {
 	return filepath.Join(enterScratch(), t.realDir(), rel)
 }
@@ -87,10 +97,17 @@ func (t Tree) config() *config.Config {
 }
 
 // load = fresh package state + NewTemplate on the tree (which must have been written).
-func (t Tree) load() (*textwire.Template, Outcome) {
+func (t Tree) load() (*textwire.Template, Outcome) { return t.loadOpt(true) }
+
+// loadKeep = NewTemplate without resetting the package state first (a second load in one process).
+func (t Tree) loadKeep() (*textwire.Template, Outcome) { return t.loadOpt(false) }
+
+func (t Tree) loadOpt(reset bool) (*textwire.Template, Outcome) {
 	var tpl *textwire.Template
 	o := guard(func() Outcome {
-		rt.ResetRoot()
+		if reset {
+			rt.ResetRoot()
+		}
 		tp, err := textwire.NewTemplate(t.config())
 		if err != nil {
 			o := parseErr(err)
